@@ -95,6 +95,26 @@ def _compare_models(name, m1, m2, shape, obs1, emb1, obs2, emb2, what):
             return Fail(f'{what}-changes-log-likelihood', f'CACGMM.log_likelihood {a!r} vs {b!r} {what}')
 
 
+def _within_rounding_sensitivity(name, a, obs, emb, init, iterations, opts, shape, obs2, emb2, b):
+    """'up to rounding' for an iterated map: EM can amplify rounding differences transiently by orders of magnitude (a class
+    passing through a near-collapse).  The deviation between the original and the scaled run is compared with the deviation
+    between the original run and a run on data perturbed by 1e-15 relative (fixed PRNG): within 1000x of that, the scaled
+    run differs from the original no more than rounding itself makes the original differ from itself."""
+    if name == 'cbmm':
+        return False
+    try:
+        prng = np.random.default_rng(12345)
+        o3 = None if obs is None else obs * (1 + 1e-15 * prng.standard_normal(obs.shape))
+        e3 = None if emb is None else emb * (1 + 1e-15 * prng.standard_normal(emb.shape))
+        c = pu.fit(name, o3, e3, init, iterations, opts)
+        g1, g2, g3 = pu.predict(name, a, obs, emb), pu.predict(name, b, obs2, emb2), pu.predict(name, c, o3, e3)
+    except Exception:  # noqa
+        return False
+    d_scaled = float(np.max(np.abs(g1 - g2)))
+    d_noise = float(np.max(np.abs(g1 - g3)))
+    return np.isfinite(d_scaled) and d_scaled <= 1e-4 and d_scaled <= 1000 * d_noise
+
+
 @oracle
 def mixture_gain_invariance(model, obs, emb, init, iterations, opts, gain, emb_gain):
     """fit / predict on y versus c*y (complex gain per time-frequency point on the spatial stream, positive real gain on
@@ -146,6 +166,9 @@ def mixture_gain_invariance(model, obs, emb, init, iterations, opts, gain, emb_g
             and pu.inline_aligner_ties(name, obs, init, iterations, opts) is not None:
         # a (near-)tie in the aligner's score matrix is decided by the last bits of the posteriors
         return Skip('tie-within-rounding: inline aligner score tie')
+    if r is not None and _within_rounding_sensitivity(name, a, obs, emb, init, iterations, opts, shape, obs2, emb2, b):
+        return Skip('tie-within-rounding: the deviation is within the sensitivity of this EM trajectory to a 1e-15 relative '
+                    'perturbation of the data (transient amplification of rounding differences)')
     if r is not None:
         r.desc += f' ({what}; |c| in [{np.min(np.abs(gain)) if gain is not None else 1:.1e}, ' \
                   f'{np.max(np.abs(gain)) if gain is not None else 1:.1e}])'
